@@ -99,6 +99,12 @@ var frameRe = regexp.MustCompile(`(?m)^github\.com/bio-routing/bio-rd/([^\s(]+(?
 // TopFrame extracts the innermost bio-rd function of a Go stack dump (of the first goroutine in
 // it), e.g. "protocols/bgp/server.recvBMPMsg"; "" if there is none.
 func TopFrame(stack string) string {
+	f, _ := TopFrames(stack)
+	return f
+}
+
+// TopFrames returns the innermost bio-rd function and its nearest distinct bio-rd caller.
+func TopFrames(stack string) (where, via string) {
 	// only the first goroutine block
 	if i := strings.Index(stack, "\n\ngoroutine "); i >= 0 {
 		stack = stack[:i]
@@ -108,13 +114,22 @@ func TopFrame(stack string) string {
 		if strings.Contains(f, "verif") || strings.Contains(f, "Verif") {
 			continue
 		}
-		return f
+		if where == "" {
+			where = f
+			continue
+		}
+		if f != where {
+			return where, f
+		}
 	}
-	return ""
+	return where, ""
 }
 
 // PanicClass reduces a panic/fatal message to a stable class.
 func PanicClass(msg string) string {
+	if strings.Contains(msg, "cannot allocate memory") {
+		return "out of memory"
+	}
 	for _, c := range []string{"slice bounds out of range", "index out of range", "nil pointer dereference",
 		"makeslice: len out of range", "makeslice: cap out of range", "interface conversion", "out of memory",
 		"close of closed channel", "close of nil channel", "all goroutines are asleep", "stack overflow",
